@@ -237,7 +237,10 @@ Definition run_case (c : list Z) : list Z :=
               | None => [-99] end
   (* 8: the Java client's  murmur2(key)  as a signed int, then  toPositive(murmur2(key)) % n  for each n *)
   | 8 :: r => match take_lp r with
-              | Some (d, ns) => murmur2_java (map sbyte d) :: map (java_partition (map sbyte d)) ns
+              | Some (d, ns) =>
+                  (* = murmur2_java sd :: map (java_partition sd) ns, java_partition unfolded to hash the key once *)
+                  let h := murmur2_java (map sbyte d) in
+                  h :: map (fun n => (Z.land h 0x7FFFFFFF) mod n) ns
               | None => [-99] end
   | _ => [-99]
   end.
